@@ -204,7 +204,7 @@ Section SignCrypt.
     rewrite dassert_ok.
     - unfold byte_xor. rewrite dassert_ok; [reflexivity|].
       intros _. unfold ks. rewrite (ol_xof_len K O _ _ OL). apply Nat.eqb_refl.
-    - intros E. destruct (H E) as [A|A].
+    - intros E. unfold ks at 1. rewrite (ol_xof_len K O _ _ OL). destruct (H E) as [A|A].
       + apply Nat.ltb_lt in A. rewrite A. reflexivity.
       + rewrite A. apply orb_true_r.
   Qed.
